@@ -168,6 +168,11 @@ func vfArrive(g *vfGhost, tag string) {
 	}
 	if s0 == stateTripped && s1 == stateRecovering {
 		g.recoverAt = now
+		// C12: every recovery starts its ramp afresh: the controller counts from this instant,
+		// over the configured duration, and has decided exactly this one request so far
+		if cb.rc != nil && g.depth == 0 {
+			verifAssert("recovery-ramp-starts-afresh", verifAnd(verifAnd(cb.rc.start.Equal(now), cb.rc.duration == cb.recoveryDuration), cb.rc.allowed+cb.rc.denied == 1))
+		}
 	}
 	if s0 == stateRecovering || s1 == stateRecovering {
 		if s0 == stateRecovering && now.After(until0) {
